@@ -384,6 +384,8 @@ struct Outer {
     map: std::collections::HashMap<String, i32>,
     blob: Blob,
     text: Text,
+    pairs: Vec<(i32, String)>,
+    triple: (bool, u64, Text),
 }
 
 fn typed_rt<T: Form + RecognizerReadable + PartialEq + std::fmt::Debug>(w: &Watch, op: &str, t: &T) -> String {
@@ -477,6 +479,8 @@ fn typed_case(rng: &mut Rng, w: &Watch, t: &Tr) {
                 map: (0..rng.below(3)).map(|_| (rand_string(rng), rng.next() as i32)).collect(),
                 blob: Blob::from_vec((0..rng.below(7)).map(|_| rng.next() as u8).collect()),
                 text: Text::from(rand_string(rng)),
+                pairs: (0..rng.below(4)).map(|_| (rng.next() as i32, rand_string(rng))).collect(),
+                triple: (rng.chance(1, 2), rng.next(), Text::from(rand_string(rng))),
             };
             let op = format!("typed outer {}", hex(format!("{}", print_recon_compact(&v)).as_bytes()));
             let o = typed_rt(w, &op, &v);
@@ -1076,6 +1080,42 @@ fn truncated_text(rng: &mut Rng, model_safe: bool) -> String {
     s
 }
 
+/// `chunksm`: as `chunk_case`, restricted to documents on which the model is an oracle (valid UTF-8, floats inside the
+/// model's exact-decimal set, no byte-level mutation): the five fields are also compared with the decoder model.
+fn chunkm_case(rng: &mut Rng, w: &Watch, t: &Tr) {
+    let cfg = VCfg { bad_attr_names: true, nonfinite: false, risky_shapes: true };
+    let base: Vec<u8> = match rng.below(10) {
+        0..=3 => gen_grammar_text(rng).into_bytes(),
+        4..=5 => print_style(*rng.pick(&['S', 'C', 'P']), &gen_value(rng, 4, cfg)).into_bytes(),
+        6 => {
+            let d = rng.range(4, 30) as u32;
+            print_style(*rng.pick(&['S', 'C', 'P']), &deep_chain(rng, d)).into_bytes()
+        }
+        7 => print_style('C', &gen_prim(rng, cfg)).into_bytes(),
+        _ => truncated_text(rng, true).into_bytes(),
+    };
+    let cutspec = if base.len() <= 160 || rng.chance(1, 20) {
+        "all".to_string()
+    } else {
+        let mut cuts: Vec<usize> = (0..1 + rng.below(6)).map(|_| 1 + rng.below(base.len() as u64 - 1) as usize).collect();
+        cuts.sort();
+        cuts.dedup();
+        cuts.iter().map(|c| c.to_string()).collect::<Vec<_>>().join(",")
+    };
+    let op = format!("chunk {} {}", hex(&base), cutspec);
+    let o = chunk_op(w, &op, &base, &cutspec);
+    t.op(op, o);
+    if base.len() >= 3 {
+        let mut cuts: Vec<usize> = (0..2 + rng.below(5)).map(|_| 1 + rng.below(base.len() as u64 - 1) as usize).collect();
+        cuts.sort();
+        cuts.dedup();
+        let cs = cuts.iter().map(|c| c.to_string()).collect::<Vec<_>>().join(",");
+        let op = format!("chunk {} {}", hex(&base), cs);
+        let o = chunk_op(w, &op, &base, &cs);
+        t.op(op, o);
+    }
+}
+
 fn chunk_case(rng: &mut Rng, w: &Watch, t: &Tr) {
     let cfg = VCfg { bad_attr_names: false, nonfinite: false, risky_shapes: false };
     let base: Vec<u8> = match rng.below(12) {
@@ -1242,6 +1282,7 @@ pub fn main() {
                 "values" => 0x1100,
                 "texts" => 0x2200,
                 "chunks" => 0x3300,
+                "chunksm" => 0x5500,
                 _ => 0x4400,
             });
             for c in 0..cases {
@@ -1251,6 +1292,7 @@ pub fn main() {
                     "values" => value_case(&mut case_rng, &w, &t),
                     "texts" => text_case(&mut case_rng, &w, &t),
                     "chunks" => chunk_case(&mut case_rng, &w, &t),
+                    "chunksm" => chunkm_case(&mut case_rng, &w, &t),
                     _ => typed_case(&mut case_rng, &w, &t),
                 }
             }
